@@ -48,6 +48,7 @@ enum Expr {
     Ite(Box<Expr>, Box<Expr>, Box<Expr>),
     Wr(usize, Box<Expr>),
     Sel(usize, usize), // selector node, index of the key in its trigger list
+    New(usize),        // instantiate template node k here (a memo / an effect created at run time)
 }
 
 fn parse_expr(s: &Sexp) -> Expr {
@@ -62,6 +63,7 @@ fn parse_expr(s: &Sexp) -> Expr {
         6 => Expr::Ite(b(1), b(2), b(3)),
         7 => Expr::Wr(s.at(1).num() as usize, b(2)),
         8 => Expr::Sel(s.at(1).num() as usize, s.at(2).num() as usize),
+        9 => Expr::New(s.at(1).num() as usize),
         _ => Expr::Const(0),
     }
 }
@@ -94,6 +96,11 @@ enum Handle {
     SelCell,
     SelKey(i64),
     Sel(Selector<i64>, Vec<usize>),
+    // a node that is created at run time by the body that evaluates (9 k): the declaration ...
+    Template,
+    // ... and, in the environment of that body (and of whatever it creates afterwards), the
+    // instance: its id in the trace (ids of instances follow the indices of the program) + handle
+    Inst(i64, Box<Handle>),
 }
 
 fn wrapped_of(h: &Handle) -> Option<usize> {
@@ -180,9 +187,25 @@ struct Ctx {
     mask: u8,          // which sub-command
     effects: Vec<bool>, // is node i an effect
     gone: Vec<bool>,   // node i (an arena signal / memo) was disposed
+    templates: Vec<Option<Sexp>>, // declaration of template node k
+    next_id: i64,      // id of the next instance
 }
 thread_local! {
-    static CTX: RefCell<Ctx> = RefCell::new(Ctx { trace: vec![], stack: vec![], untracked: 0, mask: 0, effects: vec![], gone: vec![] });
+    static CTX: RefCell<Ctx> = RefCell::new(Ctx { trace: vec![], stack: vec![], untracked: 0, mask: 0, effects: vec![], gone: vec![], templates: vec![], next_id: 0 });
+    // Arc handles of memos created at run time: "the user keeps them somewhere" (an ArcMemo that
+    // is dropped at the end of the body that created it is a dead source)
+    static KEEP: RefCell<Vec<Handle>> = RefCell::new(vec![]);
+}
+/// what an effect body returns: its value, and the handles of the RenderEffects it created (a
+/// RenderEffect lives in its handle; the previous value is handed to the next run and dropped
+/// there, as with `move |_| { ...; RenderEffect::new(..) }`)
+struct Ret {
+    v: i64,
+    _nested: Vec<RenderEffect<Ret>>,
+}
+thread_local! {
+    // RenderEffects created by the body that is running (innermost last)
+    static NESTED: RefCell<Vec<Vec<RenderEffect<Ret>>>> = RefCell::new(vec![]);
 }
 fn ev(kind: i64, rest: Vec<i64>) {
     CTX.with(|c| {
@@ -248,7 +271,11 @@ fn read_node(hs: &[Handle], j: usize, tracked_read: bool) -> i64 {
     } else {
         None
     };
-    if is_gone(j) {
+    let (disp, h): (i64, &Handle) = match &hs[j] {
+        Handle::Inst(id, inner) => (*id, &**inner),
+        h => (j as i64, h),
+    };
+    if disp == j as i64 && is_gone(j) {
         // a disposed arena handle: `get` would panic, `try_get` tracks nothing and gives None
         let got = match &hs[j] {
             Handle::Pair(r, _) => if tracked_read { r.try_get() } else { r.try_get_untracked() },
@@ -261,7 +288,7 @@ fn read_node(hs: &[Handle], j: usize, tracked_read: bool) -> i64 {
         ev(2, vec![reader(), j as i64, v, t as i64]);
         return v;
     }
-    let v = match &hs[j] {
+    let v = match h {
         Handle::ArcRw(s) => if tracked_read { s.get() } else { s.get_untracked() },
         Handle::Pair(r, _) => if tracked_read { r.get() } else { r.get_untracked() },
         Handle::Rw(s) => if tracked_read { s.get() } else { s.get_untracked() },
@@ -329,12 +356,14 @@ fn read_node(hs: &[Handle], j: usize, tracked_read: bool) -> i64 {
         Handle::SelCell | Handle::SelKey(_) | Handle::Sel(..) => {
             panic!("case reads a node of a selector directly")
         }
+        Handle::Template => panic!("case reads a template that has no instance in this scope"),
+        Handle::Inst(..) => unreachable!(),
     };
     let t = tracked_read && tracked_ctx();
-    if let Some(k) = wrapped_of(&hs[j]) {
+    if let Some(k) = wrapped_of(h) {
         emit_chain(hs, k, v, t);
     }
-    ev(2, vec![reader(), j as i64, v, t as i64]);
+    ev(2, vec![reader(), disp, v, t as i64]);
     v
 }
 
@@ -369,7 +398,7 @@ fn notify_node(hs: &[Handle], s: usize) {
     }
 }
 
-fn eval(e: &Expr, hs: &[Handle]) -> i64 {
+fn eval(e: &Expr, hs: &mut Vec<Handle>) -> i64 {
     match e {
         Expr::Const(z) => *z,
         Expr::Rd(j) => read_node(hs, *j, true),
@@ -400,6 +429,10 @@ fn eval(e: &Expr, hs: &[Handle]) -> i64 {
             write_node(hs, *s, v);
             v
         }
+        Expr::New(k) => {
+            instantiate(*k, hs);
+            0
+        }
         Expr::Sel(e, j) => match &hs[*e] {
             Handle::Sel(sel, ts) => {
                 let t = ts[*j];
@@ -425,17 +458,99 @@ fn eval(e: &Expr, hs: &[Handle]) -> i64 {
 fn run_body(id: usize, e: &Expr, hs: &[Handle]) -> i64 {
     ev(1, vec![id as i64]);
     let _g = BodyGuard::enter(id as i64);
-    let v = eval(e, hs);
+    // the environment of this run: what the body creates is visible to the rest of the body
+    let mut env = hs.to_vec();
+    let v = eval(e, &mut env);
     drop(_g);
     ev(3, vec![id as i64, v]);
     v
+}
+
+/// the body of an effect: its value + the RenderEffects it created
+fn run_effect_body(id: usize, e: &Expr, hs: &[Handle]) -> Ret {
+    NESTED.with(|n| n.borrow_mut().push(vec![]));
+    let v = run_body(id, e, hs);
+    let nested = NESTED.with(|n| n.borrow_mut().pop()).unwrap_or_default();
+    Ret { v, _nested: nested }
+}
+
+fn make_memo(cmp: i64, flavor: i64, id: usize, e: Expr, lower: Arc<Vec<Handle>>) -> Handle {
+    let f = move |_: Option<&i64>| run_body(id, &e, &lower);
+    match (flavor, cmp) {
+        (0, 0) => Handle::ArcMemo(ArcMemo::new(f)),
+        (0, 2) => Handle::ArcMemo(ArcMemo::new_with_compare(f, parity_changed)),
+        (0, _) => Handle::ArcMemo(ArcMemo::new_with_compare(f, |_, _| true)),
+        (_, 0) => Handle::Memo(Memo::new(f)),
+        (_, 2) => Handle::Memo(Memo::new_with_compare(f, parity_changed)),
+        (_, _) => Handle::Memo(Memo::new_with_compare(f, |_, _| true)),
+    }
+}
+
+/// creates an effect of the given kind under the CURRENT owner; the caller sets the task label
+fn make_effect(kind: i64, id: usize, e: Expr, hd: Expr, lower: Arc<Vec<Handle>>) -> EffHandle {
+    let l2 = lower.clone();
+    match kind {
+        0 => EffHandle::Eff(Effect::new(move |_: Option<Ret>| run_effect_body(id, &e, &lower))),
+        1 => EffHandle::Render(Some(RenderEffect::new(move |_: Option<Ret>| {
+            run_effect_body(id, &e, &lower)
+        }))),
+        2 | 3 => EffHandle::Eff(Effect::watch(
+            move || run_effect_body(id, &e, &lower),
+            move |_new: &Ret, _old: Option<&Ret>, _prev: Option<i64>| run_handler(id, &hd, &l2),
+            kind == 3,
+        )),
+        4 => EffHandle::Iso(Effect::new_isomorphic(move |_: Option<Ret>| {
+            run_effect_body(id, &e, &lower)
+        })),
+        _ => EffHandle::Imm(Some(ImmediateEffect::new(move || {
+            run_body(id, &e, &lower);
+        }))),
+    }
+}
+
+/// (9 k): the node declared by template k is created now, by the body that is running, under
+/// the current owner; it sees the nodes its creator sees
+fn instantiate(k: usize, hs: &mut Vec<Handle>) {
+    let (decl, id) = CTX.with(|c| {
+        let mut c = c.borrow_mut();
+        let id = c.next_id;
+        c.next_id += 1;
+        (c.templates.get(k).cloned().flatten().expect("case instantiates a node that is not a template"), id)
+    });
+    ev(12, vec![id, k as i64]);
+    let lower: Arc<Vec<Handle>> = Arc::new(hs.clone());
+    let h = match decl.at(0).num() {
+        1 => {
+            let h = make_memo(decl.at(1).num(), decl.at(2).num(), id as usize, parse_expr(decl.at(3)), lower);
+            KEEP.with(|k| k.borrow_mut().push(h.clone()));
+            h
+        }
+        _ => {
+            // the label of the tasks spawned from here on; put back afterwards (the creator may
+            // be a RenderEffect in its first run, whose own task is spawned after that run)
+            let saved = EXEC.with(|x| std::mem::replace(&mut x.borrow_mut().label, id));
+            let made = make_effect(decl.at(1).num(), id as usize, parse_expr(decl.at(2)), parse_expr(decl.at(3)), lower);
+            EXEC.with(|x| x.borrow_mut().label = saved);
+            match made {
+                EffHandle::Render(Some(r)) => NESTED.with(|n| match n.borrow_mut().last_mut() {
+                    Some(top) => top.push(r),
+                    None => panic!("case creates a RenderEffect outside an effect body"),
+                }),
+                EffHandle::Imm(_) => panic!("case creates an ImmediateEffect at run time"),
+                _ => {} // Effect::new / watch / new_isomorphic live in the arena of the current owner
+            }
+            Handle::Effect
+        }
+    };
+    hs[k] = Handle::Inst(id, Box::new(h));
 }
 
 fn run_handler(id: usize, e: &Expr, hs: &[Handle]) -> i64 {
     ev(5, vec![id as i64]);
     let _g = BodyGuard::enter(id as i64);
     let _u = UntrGuard::enter();
-    let v = eval(e, hs);
+    let mut env = hs.to_vec();
+    let v = eval(e, &mut env);
     drop(_u);
     drop(_g);
     ev(6, vec![id as i64, v]);
@@ -546,7 +661,7 @@ fn exec_reset() {
 enum EffHandle {
     Eff(Effect<LocalStorage>),
     Iso(Effect<SyncStorage>),
-    Render(Option<RenderEffect<i64>>),
+    Render(Option<RenderEffect<Ret>>),
     Imm(Option<ImmediateEffect>),
 }
 struct EffRec {
@@ -579,7 +694,11 @@ fn run_case(c: &Sexp, mask: u8) -> Sexp {
         x.untracked = 0;
         x.mask = mask;
         x.gone.clear();
+        x.templates.clear();
+        x.next_id = c.at(0).list().len() as i64;
     });
+    KEEP.with(|k| k.borrow_mut().clear());
+    NESTED.with(|n| n.borrow_mut().clear());
     let prog = c.at(0).list();
     let ops = c.at(1).list();
     let root = Owner::new();
@@ -613,15 +732,18 @@ fn run_case(c: &Sexp, mask: u8) -> Sexp {
                 let cmp = nd.at(1).num();
                 let flavor = nd.at(2).num();
                 let e = parse_expr(nd.at(3));
-                let f = move |_: Option<&i64>| run_body(i, &e, &lower);
-                match (flavor, cmp) {
-                    (0, 0) => Handle::ArcMemo(ArcMemo::new(f)),
-                    (0, 2) => Handle::ArcMemo(ArcMemo::new_with_compare(f, parity_changed)),
-                    (0, _) => Handle::ArcMemo(ArcMemo::new_with_compare(f, |_, _| true)),
-                    (_, 0) => Handle::Memo(Memo::new(f)),
-                    (_, 2) => Handle::Memo(Memo::new_with_compare(f, parity_changed)),
-                    (_, _) => Handle::Memo(Memo::new_with_compare(f, |_, _| true)),
-                }
+                make_memo(cmp, flavor, i, e, lower)
+            }
+            5 => {
+                // a template: created at run time by the bodies that evaluate (9 i)
+                CTX.with(|x| {
+                    let mut x = x.borrow_mut();
+                    if x.templates.len() <= i {
+                        x.templates.resize(i + 1, None);
+                    }
+                    x.templates[i] = Some(nd.at(1).clone());
+                });
+                Handle::Template
             }
             4 => {
                 // (4 cmp src V P (T ...)): a Selector over the closure src; its internal
@@ -672,7 +794,10 @@ fn run_case(c: &Sexp, mask: u8) -> Sexp {
             }
             2 => {
                 let e = parse_expr(nd.at(2));
-                let f = move || eval(&e, &lower);
+                let f = move || {
+                    let mut env = (*lower).clone();
+                    eval(&e, &mut env)
+                };
                 match nd.at(1).num() {
                     0 => Handle::Closure(Arc::new(f)),
                     1 => Handle::Derive(Signal::derive(f)),
@@ -695,26 +820,7 @@ fn run_case(c: &Sexp, mask: u8) -> Sexp {
                     None => root.child(),
                 };
                 EXEC.with(|x| x.borrow_mut().label = i as i64);
-                let l2 = lower.clone();
-                let handle = owner.with(|| match kind {
-                    0 => EffHandle::Eff(Effect::new(move |_: Option<i64>| run_body(i, &e, &lower))),
-                    1 => EffHandle::Render(Some(RenderEffect::new(move |_: Option<i64>| {
-                        run_body(i, &e, &lower)
-                    }))),
-                    2 | 3 => EffHandle::Eff(Effect::watch(
-                        move || run_body(i, &e, &lower),
-                        move |_new: &i64, _old: Option<&i64>, _prev: Option<i64>| {
-                            run_handler(i, &hd, &l2)
-                        },
-                        kind == 3,
-                    )),
-                    4 => EffHandle::Iso(Effect::new_isomorphic(move |_: Option<i64>| {
-                        run_body(i, &e, &lower)
-                    })),
-                    _ => EffHandle::Imm(Some(ImmediateEffect::new(move || {
-                        run_body(i, &e, &lower);
-                    }))),
-                });
+                let handle = owner.with(|| make_effect(kind, i, e, hd, lower));
                 eff = Some(EffRec { owner, handle, parent });
                 Handle::Effect
             }
@@ -811,6 +917,7 @@ fn run_case(c: &Sexp, mask: u8) -> Sexp {
     CTX.with(|x| x.borrow_mut().mask = 255);
     drop(effs);
     drop(hs);
+    KEEP.with(|k| k.borrow_mut().clear());
     root.cleanup();
     drop(root);
     exec_reset();
